@@ -6,12 +6,11 @@
 // ASSUME: worklists whose initial work arrives through push_initial (LocalQueue with a global queue, StableIterator, BulkSynchronous, OwnerComputes) get it exactly once, first, as ForEachExecutor::initThread does (kind 4 = push_initial(range of 2), kind 5 = push_initial(empty range))
 // ASSUME: BulkSynchronous: no push after a pop that returned empty (its isEmpty flag is sticky by design; with one worker and no abort-retries the executor never pushes after an empty pop; the combination with abort-retries is listed outside the bounds in DESIGN.md section 4 item 14)
 // ASSUME: GFIFO/GLIFO (Wrapper over gdeque) have no range push: Wrapper::push(Iter,Iter) calls container.insert(end,b,e), which galois::gdeque does not provide (it does not compile when instantiated), so only push(v)/pop are exercised there
-// OB: ob_wl_gfifo tier=quick solver=cadical unwind=32 timeout=120 cbmc="--max-field-sensitivity-array-size 600" params=3,1 bounds="GFIFO<int> and GLIFO<int> (Wrapper over gdeque): 3 kind sequences of 5..6 ops from {push(v), pop}; values symbolic in 0..3" desc="pop returns only pending items, each once; an empty pop means nothing is pending; after draining nothing comes back"
-// OB: ob_wl_stdfifo tier=quick solver=cadical unwind=32 timeout=180 cbmc="--max-field-sensitivity-array-size 600" params=3,1 bounds="FIFO<int> and LIFO<int> (Wrapper over std::deque): 3 kind sequences from {push(v), push(range of 2), pop}" desc="work conservation, one worker"
-// OB: ob_wl_localqueue tier=quick solver=cadical unwind=32 timeout=120 cbmc="--max-field-sensitivity-array-size 600" params=4,1 bounds="LocalQueue<NoGlobalQueue, GFIFO> (push/pop) and LocalQueue<ChunkFIFO<2>, LIFO<int>> (push_initial into the global queue, then push/range push/pop): 4 kind sequences" desc="work conservation, one worker"
-// OB: ob_wl_ownercomputes tier=quick solver=cadical unwind=32 timeout=120 cbmc="--max-field-sensitivity-array-size 600" params=4,1 bounds="OwnerComputes<DummyIndexer, ChunkLIFO<2>>: 4 kind sequences starting with push_initial" desc="work conservation, one worker"
-// OB: ob_wl_stableiter tier=quick solver=cadical unwind=32 timeout=120 cbmc="--max-field-sensitivity-array-size 600" params=4,2 bounds="StableIterator<Steal=false|true, PerSocketChunkFIFO<2>, int*>: 4 kind sequences starting with push_initial of 2 or 0 items" desc="work conservation, one worker (initial range consumed in place, pushes go to the inner worklist)"
-// OB: ob_wl_bulksync tier=quick solver=cadical unwind=32 timeout=120 cbmc="--max-field-sensitivity-array-size 600" params=5,1 bounds="BulkSynchronous<ChunkFIFO<2>, int, true>, 1 thread, real CountingBarrier(1): 5 kind sequences starting with push_initial of 2 or 0 items" desc="work conservation, one worker"
+// ASSUME: FIFO/LIFO (Wrapper over std::deque): only push(v)/pop are exercised and only in the thorough tier with at most 2 pushes per history (1.5-1.9 M variables, 2.4-2.9 GB, 30-40 s; a third push exceeds 6 GB); the range push (std::deque::insert(end,b,e) -> _M_range_insert_aux) exceeds the caps after translation (symex 64 s, then > 5 GB in propositional reduction for ONE range push of 2 items) and is not encoded
+// OB: ob_wl_simple tier=quick solver=cadical unwind=20 timeout=180 params=4 bounds="GFIFO<int>, GLIFO<int> (Wrapper over gdeque), one after the other in each query, without the per-thread-storage environment (not used by them): 4 kind sequences of 5..6 ops from {push(v), pop} (table SEQ_I with range pushes split into single pushes); values symbolic in 0..3"
+// OB: ob_wl_bulksync tier=quick solver=cadical unwind=32 timeout=120 cbmc="--max-field-sensitivity-array-size 600" params=5 bounds="BulkSynchronous<ChunkFIFO<2>,int,true> and BulkSynchronous<PerSocketChunkLIFO<2>,int,true>, 1 thread, the real CountingBarrier(1): 5 kind sequences (table SEQ_BS) of up to 7 ops: push_initial(range of 2 or 0) first, then {push(v), push(range of 2), pop} with no push after an empty pop" desc="work conservation, one worker, across round flips"
+// OB: ob_wl_stddeque tier=thorough solver=cadical unwind=20 timeout=600 mem_gb=8 params=2,2 bounds="FIFO<int> / LIFO<int> (Wrapper over std::deque): 2 kind sequences with 2 pushes and 3 pops each ({push,push,pop,pop,pop}, {push,pop,pop,push,pop}); 30-40 s and 2.4-2.9 GB per query, three pushes exceed 6 GB" desc="pop returns only pending items, each once; an empty pop means nothing is pending; after draining nothing comes back"
+// OB: ob_wl_composite tier=quick solver=cadical unwind=32 timeout=120 cbmc="--max-field-sensitivity-array-size 600" params=4 bounds="LocalQueue<NoGlobalQueue,GFIFO> (single pushes), LocalQueue<ChunkFIFO<2>,ChunkLIFO<2>>, OwnerComputes<DummyIndexer,ChunkLIFO<2>>, StableIterator<false|true,PerSocketChunkFIFO<2>,int*>, one after the other in each query; 1 thread; 4 kind sequences (table SEQ_I): push_initial(range of 2 or 0) first, then {push(v), push(range of 2), pop}" desc="work conservation, one worker: initial range and pushed items all come back exactly once; an empty pop means nothing is pending"
 #include "C01_wl_common.h"
 #include "galois/worklists/Chunk.h"
 #include "galois/worklists/Simple.h"
@@ -24,17 +23,18 @@
 using namespace galois::worklists;
 namespace c01 {
 // kinds: 0 push(v), 1 push(range of 2), 2 pop, 4 push_initial(range of 2), 5 push_initial(empty range), 9 end
-static const unsigned char SEQ_PP[][SEQLEN] = { // push / pop only
-    {0, 0, 2, 0, 2, 2, 9},
-    {2, 0, 2, 2, 0, 0, 9},
-    {0, 0, 0, 2, 2, 0, 9},
-};
 static const unsigned char SEQ_I[][SEQLEN] = { // initial range first
     {4, 2, 0, 2, 1, 2, 9},
     {5, 0, 2, 2, 1, 9},
     {4, 1, 2, 2, 2, 0, 9},
     {4, 2, 2, 2, 0, 2, 9},
-    {5, 2, 9}, // BulkSynchronous: nothing at all
+};
+static const unsigned char SEQ_BS[][SEQLEN] = { // never a push after an empty pop
+    {4, 2, 0, 2, 1, 2, 9},
+    {5, 2, 9},
+    {4, 1, 2, 2, 2, 0, 9},
+    {4, 2, 0, 0, 2, 2, 1, 9}, // three rounds
+    {5, 0, 2, 0, 2, 9},
 };
 
 static int initial_items[2];
@@ -49,10 +49,23 @@ void push_initial(WL& wl, Bag& bag, unsigned n) {
 }
 
 // adaptor with push_initial kinds; NoRange = the worklist has no range push
+inline void vfenv_enter0() {
+  if (vfenv::nthreads) vfenv::enter(0);
+}
 template <typename WL, bool HasRange = true>
 struct OpsI {
   static constexpr bool has_flush = false;
   static void start(WL&, Bag&) {}
+  static void initial(WL& wl, Bag& bag, unsigned n) {
+    if constexpr (HasRange)
+      push_initial(wl, bag, n);
+    else
+      for (unsigned i = 0; i < n; ++i) {
+        int v = value();
+        bag.add(v);
+        wl.push(v);
+      }
+  }
   static void push(WL& wl, int v) { wl.push(v); }
   static void push2(WL& wl, int* b, int* e) {
     if constexpr (HasRange)
@@ -88,54 +101,56 @@ template <typename WL>
 bool OpsBS<WL>::done = false;
 
 template <typename WL, typename O>
-void run_table(const unsigned char (*tab)[SEQLEN], unsigned n, unsigned row) {
-  configure(0);
-  WL wl;
-  become_worker(0);
-  Bag bag;
-  const unsigned char* s = tab[row < n ? row : 0];
-  for (unsigned i = 0; i < SEQLEN; ++i) {
-    if (s[i] == 9) break;
-    if (s[i] == 4)
-      push_initial(wl, bag, 2);
-    else if (s[i] == 5)
-      push_initial(wl, bag, 0);
-    else
-      step<WL, O>(wl, bag, s[i]);
+void run_row(const unsigned char* s) {
+  vfenv_enter0();
+  {
+    WL wl;
+    Bag bag;
+    for (unsigned i = 0; i < SEQLEN; ++i) {
+      if (s[i] == 9) break;
+      if (s[i] == 4 || s[i] == 5)
+        O::initial(wl, bag, s[i] == 4 ? 2 : 0);
+      else
+        step<WL, O>(wl, bag, s[i]);
+    }
+    drain<WL, O>(wl, bag);
   }
-  drain<WL, O>(wl, bag);
 }
 } // namespace c01
 
-OB(wl_gfifo) {
-  c01::run_table<GFIFO<int>, c01::OpsI<GFIFO<int>, false>>(c01::SEQ_PP, 3, vf_param(0));
-  c01::run_table<GLIFO<int>, c01::OpsI<GLIFO<int>, false>>(c01::SEQ_PP, 3, vf_param(0));
+OB(wl_simple) {
+  galois::substrate::ThreadPool::my_box.topo.tid = 0;
+  const unsigned char* s = c01::SEQ_I[vf_param(0) < 4 ? vf_param(0) : 0];
+  c01::run_row<GFIFO<int>, c01::OpsI<GFIFO<int>, false>>(s);
+  c01::run_row<GLIFO<int>, c01::OpsI<GLIFO<int>, false>>(s);
 }
-OB(wl_stdfifo) {
-  c01::run_table<FIFO<int>, c01::OpsI<FIFO<int>>>(c01::SEQ_N, 3, vf_param(0));
-  c01::run_table<LIFO<int>, c01::OpsI<LIFO<int>>>(c01::SEQ_N, 3, vf_param(0));
-}
-OB(wl_localqueue) {
-  typedef LocalQueue<NoGlobalQueue<>, GFIFO<int>, int> LQ0;
-  typedef LocalQueue<ChunkFIFO<2>, LIFO<int>, int> LQ1;
-  if (vf_param(0) < 2)
-    c01::run_table<LQ0, c01::OpsI<LQ0, false>>(c01::SEQ_PP, 3, vf_param(0));
+OB(wl_stddeque) {
+  static const unsigned char SEQ_D[][c01::SEQLEN] = {{0, 0, 2, 2, 2, 9}, {0, 2, 2, 0, 2, 9}};
+  galois::substrate::ThreadPool::my_box.topo.tid = 0;
+  if (vf_param(0) == 0)
+    c01::run_row<FIFO<int>, c01::OpsI<FIFO<int>, false>>(SEQ_D[vf_param(1) & 1]);
   else
-    c01::run_table<LQ1, c01::OpsI<LQ1>>(c01::SEQ_I, 4, vf_param(0) - 2);
+    c01::run_row<LIFO<int>, c01::OpsI<LIFO<int>, false>>(SEQ_D[vf_param(1) & 1]);
 }
-OB(wl_ownercomputes) {
+OB(wl_composite) {
+  typedef LocalQueue<NoGlobalQueue<>, GFIFO<int>, int> LQ0;
+  typedef LocalQueue<ChunkFIFO<2>, ChunkLIFO<2>, int> LQ1;
   typedef OwnerComputes<DummyIndexer<int>, ChunkLIFO<2>, int> OC;
-  c01::run_table<OC, c01::OpsI<OC>>(c01::SEQ_I, 4, vf_param(0));
-}
-OB(wl_stableiter) {
   typedef StableIterator<false, PerSocketChunkFIFO<2>, int*> S0;
   typedef StableIterator<true, PerSocketChunkFIFO<2>, int*> S1;
-  if (vf_param(1) == 0)
-    c01::run_table<S0, c01::OpsI<S0>>(c01::SEQ_I, 4, vf_param(0));
-  else
-    c01::run_table<S1, c01::OpsI<S1>>(c01::SEQ_I, 4, vf_param(0));
+  c01::configure(0);
+  const unsigned char* s = c01::SEQ_I[vf_param(0) < 4 ? vf_param(0) : 0];
+  c01::run_row<LQ0, c01::OpsI<LQ0, false>>(s);
+  c01::run_row<LQ1, c01::OpsI<LQ1>>(s);
+  c01::run_row<OC, c01::OpsI<OC>>(s);
+  c01::run_row<S0, c01::OpsI<S0>>(s);
+  c01::run_row<S1, c01::OpsI<S1>>(s);
 }
 OB(wl_bulksync) {
   typedef BulkSynchronous<ChunkFIFO<2>, int, true> BS;
-  c01::run_table<BS, c01::OpsBS<BS>>(c01::SEQ_I, 5, vf_param(0));
+  typedef BulkSynchronous<PerSocketChunkLIFO<2>, int, true> BS2;
+  c01::configure(0);
+  const unsigned char* s = c01::SEQ_BS[vf_param(0) < 5 ? vf_param(0) : 0];
+  c01::run_row<BS, c01::OpsBS<BS>>(s);
+  c01::run_row<BS2, c01::OpsBS<BS2>>(s);
 }
